@@ -26,13 +26,20 @@ theorem book_proc (q0 : Parser) (acc : List Instr) :
     dsimp only
     split <;> rfl
 
-theorem stashRest_eq (p : Parser) (s : Byte) (h : p.stash.length + (rest p).length < stashSize) :
-    (stashRest p s).1 = { p with stash := p.stash ++ unesc (rest p), sentinel := s } := by
+theorem rel_unmarked (p : Parser) (A : Abs) (h : Rel p A) (hp : A.sc.pend = false) : p.eolp = false := by
+  cases hx : p.eolp with
+  | false => rfl
+  | true => have := h.mark.1 hx; rw [hp] at this; cases this
+
+theorem stashRest_eq (p : Parser) (s : Bool) (h : p.stash.length + (rest p).length < stashSize)
+    (hu : p.eolp = false) :
+    (stashRest p s).1 = { p with stash := p.stash ++ unesc (rest p), sentinel := 0, eolp := s } := by
   unfold stashRest
   have hl := unesc_length (rest p)
   unfold rest at h hl ⊢
   dsimp only
-  rw [if_neg (by omega), esccpy_eq _ _ (by omega)]
+  rw [if_neg (by omega), esccpy_eq _ _ (by omega), hu]
+  rfl
 
 theorem takeLine_eq (p : Parser) (e : Nat) (h : p.stash.length + e < stashSize) :
     takeLine p e = { p with bix := p.bix + e, stash := p.stash ++ unesc ((rest p).take e), sentinel := 0 } := by
@@ -52,20 +59,20 @@ structure Post (p : Parser) (A : Abs) : Prop where
 /-- the rest of the buffer is a piece of one line: it is stashed -/
 theorem stash_spec (p : Parser) (A : Abs) (h : Pre p A) (hp : A.sc.pend = false) (b : Bool)
     (hl : lineEnd (rest p) = some b) :
-    Post (stashRest p (if b then 1 else 0)).1 (runA A (rest p)) ∧ (runA A (rest p)).ins = A.ins := by
+    Post (stashRest p b).1 (runA A (rest p)) ∧ (runA A (rest p)).ins = A.ins := by
   have hrun := seg_runA _ (rest p) A b (Nat.le_refl _) hl h.nobsl hp
   have hsc := seg_runSc _ (rest p) A.sc b (Nat.le_refl _) hl hp
   have hraw := good_raw _ _ h.good
   rw [hsc.2.1] at hraw
   have hlen : p.stash.length + (rest p).length < stashSize := by
-    have := h.inv.2; rw [← h.rel.stash] at this
+    have := h.inv.2.1; rw [← h.rel.stash] at this
     unfold stashSize; omega
-  rw [stashRest_eq p _ hlen, hrun]
-  refine ⟨⟨⟨?_, h.rel.comp, h.rel.log, fun _ => ?_⟩, ?_, ?_, ?_⟩, rfl⟩
+  rw [stashRest_eq p _ hlen (rel_unmarked p A h.rel hp), hrun]
+  refine ⟨⟨⟨?_, h.rel.comp, h.rel.log, ?_⟩, ?_, ?_, ?_⟩, rfl⟩
   · show p.stash ++ unesc (rest p) = A.cur ++ unesc (rest p)
     rw [h.rel.stash]
-  · show (if b then 1 else 0 : Nat) = 1 ↔ (runSc A.sc (rest p)).pend = true
-    rw [hsc.1]; cases b <;> simp
+  · show b = true ↔ (runSc A.sc (rest p)).pend = true
+    rw [hsc.1]
   · show lineEnd (rest p) ≠ none
     rw [hl]; simp
   · show isFold ((rest p).headD 0) = true → (runSc A.sc (rest p)).sp = true
